@@ -38,7 +38,7 @@ PROPS = {
               "call sequence); distinct by descriptor hash; non-trivial when N >= 2 (maps differ from identity "
               "for some p in the block)"
              " Later additions have their own keys in by_case_class (DESIGN.md 5.1): call sequences and object life cycles, multi-threaded cases (also run under ThreadSanitizer), sweeps over every value of a size parameter, placement / alignment / data-structure modes drawn from the case hash."),
-        require={"all": ["calls_with_write_protected_inputs", "calls_repeated_under_allocation_failure", "small_stack_calls", "concurrent_lifecycle_uses", "rot_p_checked", "auto_p_checked", "wrapper_calls", "wrapper_dispatch:generic", "inplace_unequal_size_calls", "cross_dimension_sequences", "concurrent_map_calls", "auto_branch:cycles",
+        require={"all": ["rnx_real_coefficients", "calls_with_write_protected_inputs", "calls_repeated_under_allocation_failure", "small_stack_calls", "concurrent_lifecycle_uses", "rot_p_checked", "auto_p_checked", "wrapper_calls", "wrapper_dispatch:generic", "inplace_unequal_size_calls", "cross_dimension_sequences", "concurrent_map_calls", "auto_branch:cycles",
                          "auto_branch:mirror", "auto_branch:negate", "auto_branch:negamirror",
                          "auto_branch:identity"]},
         assumptions=["index-map oracle uses 128-bit Euclidean remainders; probe a_i=i+1 is injective so one probe "
@@ -91,7 +91,7 @@ PROPS = {
               "prepare + both apply entry points + inverse DFT; distinct by descriptor hash; non-trivial when "
               "min(nrows,a_size) >= 1 and min(ncols,res_size) >= 1 (zero-size classes are counted separately)"
              " Later additions have their own keys in by_case_class (DESIGN.md 5.1): call sequences and object life cycles, multi-threaded cases (also run under ThreadSanitizer), sweeps over every value of a size parameter, placement / alignment / data-structure modes drawn from the case hash."),
-        require={"all": ["calls_with_write_protected_inputs", "small_stack_calls", "shapes_checked", "columns_checked", "zero_columns_checked", "exact_regime_columns", "zero_polynomial_matrix_entries", "concurrent_prepare_apply_calls", "scaled_input_limbs_cases", "same_buffers_other_data_calls", "prepare_arguments_overwritten_before_use",
+        require={"all": ["spectral_symmetry_cases", "lopsided_column_magnitude_cases", "calls_with_write_protected_inputs", "small_stack_calls", "shapes_checked", "columns_checked", "zero_columns_checked", "exact_regime_columns", "zero_polynomial_matrix_entries", "concurrent_prepare_apply_calls", "scaled_input_limbs_cases", "same_buffers_other_data_calls", "prepare_arguments_overwritten_before_use",
                          "layout:column-major(N<8)", "layout:blocked", "layout:blocked(one block)"]},
         assumptions=["exact oracle per (row, column) product summed in 128-bit integers; budget = sum of the C01 "
                      "budgets of the rows + 1/2", "scratch buffers are exactly *_tmp_bytes and NaN-prefilled", ASAN_NOTE],
@@ -186,7 +186,7 @@ PROPS = {
               "family); pointwise mul/addmul (layout, variant, m, family, aliasing); convolution (sizea, sizeb) over all "
               "windows; distinct by descriptor hash; non-trivial when at least one row / term / operand is non-empty"
              " Later additions have their own keys in by_case_class (DESIGN.md 5.1): call sequences and object life cycles, multi-threaded cases (also run under ThreadSanitizer), sweeps over every value of a size parameter, placement / alignment / data-structure modes drawn from the case hash."),
-        require={"all": ["rows_checked_in_vectors_over_4GiB", "calls_with_write_protected_inputs", "small_stack_calls", "concurrent_entry_calls", "blocks_checked", "bitwise_block_copies_checked", "same_buffers_other_data_calls", "layout_roundtrips", "dot_products", "pointwise_vectors",
+        require={"all": ["related_operand_vectors", "rows_checked_in_vectors_over_4GiB", "calls_with_write_protected_inputs", "small_stack_calls", "concurrent_entry_calls", "blocks_checked", "bitwise_block_copies_checked", "same_buffers_other_data_calls", "layout_roundtrips", "dot_products", "pointwise_vectors",
                          "convolution_windows", "fftvec:cplx:avx512", "fftvec:cplx:sse", "fftvec:reim4:fma", "simple_api_calls"]},
         assumptions=["complex-arithmetic oracle in long double with the rounding budgets of DESIGN Appendix A",
                      "the inner order of the four numbers of a reim4 block produced by reim4_from_cplx is not "
@@ -199,7 +199,7 @@ PROPS = {
               "limb counts, strides, p class, repetition): the out-of-place call on a copy and the aliased call; "
               "distinct by descriptor hash; non-trivial when the aliased operand and the output have >= 1 limb"
              " Later additions have their own keys in by_case_class (DESIGN.md 5.1): call sequences and object life cycles, multi-threaded cases (also run under ThreadSanitizer), sweeps over every value of a size parameter, placement / alignment / data-structure modes drawn from the case hash."),
-        require={"all": ["calls_with_write_protected_inputs", "calls_repeated_under_allocation_failure", "small_stack_calls", "aliased_pairs", "alias:vec_znx_idft(res==a_dft)", "alias:vec_znx_add(res==b)",
+        require={"all": ["alias:vec_znx_idft_tmp_a(res==a_dft)", "calls_with_write_protected_inputs", "calls_repeated_under_allocation_failure", "small_stack_calls", "aliased_pairs", "alias:vec_znx_idft(res==a_dft)", "alias:vec_znx_add(res==b)",
                          "alias:vec_znx_big_sub_small_a(res==b)", "alias:reim_fftvec(r==a==b)", "alias:cplx_fftvec(r==b)", "concurrent_aliased_calls", "long_history_calls"]},
         assumptions=["the aliased buffer is the very same pointer with the same stride; it holds live (stale) data beyond "
                      "the aliased operand's limb count", "bitwise equality with the out-of-place call (same kernel runs)", ASAN_NOTE],
